@@ -317,6 +317,9 @@ class Statement(object):
 
             start_address = statements[this_index].code_pkg.address.int
             jump_amount = relative_address - start_address - self.code_pkg.size
+            if self.pcr_size_hint == 4:
+                # two's complement at 16 bits: a negative NumericValue is only widened below -128
+                jump_amount &= 0xFFFF
             self.code_pkg.additional = NumericValue(jump_amount, size_hint=self.pcr_size_hint)
 
 # E N D   O F   F I L E #######################################################
